@@ -1416,6 +1416,11 @@ def c09(R, ctx):
             parts = [c2, r2, c, rbad] if kind == "padded-last" else [c, rbad, c2, r2]
             wreqs.append("stream9w " + ",".join(h(p_) for p_ in parts))
             wmeta.append((kind, parts))
+            # the same with a failed (header-only) response, whose padding is self-contained whatever the command is
+            rfail = (0x8001).to_bytes(2, "big") + (10 + k_).to_bytes(4, "big") + (0x101).to_bytes(4, "big") + pad
+            parts = [c2, r2, c, rfail] if kind == "padded-last" else [c, rfail, c2, r2]
+            wreqs.append("stream9w " + ",".join(h(p_) for p_ in parts))
+            wmeta.append((kind + "-failed", parts))
             continue
         if kind == "value":
             vf = C.value_faults(("x", "R:%d:%d" % (ci["cc"], 1 if ci["rsp_enc"] else 0), r, ri), per=1)
